@@ -369,11 +369,61 @@ func init() {
 					}
 				}
 			}
+			// update() may hand its serialization to a helper of the URL that does the storing
+			// (`s.url.setQueryFromSearchParams(s.String())`): the helper is then read in its place
+			body := upd
+			delegatedVal := false
+			if store == nil {
+				for _, b := range upd.Blocks {
+					for _, ins := range b.Instrs {
+						call, ok := ins.(*ssa.Call)
+						if !ok {
+							continue
+						}
+						g := call.Common().StaticCallee()
+						if g == nil || len(g.Blocks) == 0 || g.Object() == nil || g.Object().Exported() || namedOf(recvType(g)) != "Url" || len(call.Common().Args) < 2 {
+							continue
+						}
+						if x, ok := loadOfField(call.Common().Args[0], "SearchParams:url"); !ok || x != ssa.Value(upd.Params[0]) {
+							continue
+						}
+						pi := -1
+						for i, a := range call.Common().Args {
+							if sc, ok := a.(*ssa.Call); ok {
+								if cl := sc.Common().StaticCallee(); cl != nil && cl.Name() == "String" && namedOf(recvType(cl)) == "SearchParams" && sc.Common().Args[0] == ssa.Value(upd.Params[0]) {
+									pi = i
+								}
+							}
+						}
+						if pi < 0 {
+							continue
+						}
+						for _, gb := range g.Blocks {
+							for _, gi := range gb.Instrs {
+								st, ok := gi.(*ssa.Store)
+								if !ok {
+									continue
+								}
+								if fa, ok := fieldAddrOf(st.Addr, "Url:query"); ok && fa.X == ssa.Value(g.Params[0]) {
+									store, body = st, g
+									if al, ok := st.Val.(*ssa.Alloc); ok {
+										for _, r := range *al.Referrers() {
+											if st2, ok := r.(*ssa.Store); ok && st2.Addr == ssa.Value(al) && st2.Val == ssa.Value(g.Params[pi]) {
+												delegatedVal = true
+											}
+										}
+									}
+								}
+							}
+						}
+					}
+				}
+			}
 			if store == nil {
 				s.Bad(key, c.P.Pos(upd.Pos()), "update() does not store into s.url.query")
 			} else {
 				// value: address of a local that receives s.String()
-				okVal := false
+				okVal := delegatedVal
 				if al, ok := store.Val.(*ssa.Alloc); ok {
 					for _, r := range *al.Referrers() {
 						if st2, ok := r.(*ssa.Store); ok && st2.Addr == ssa.Value(al) {
@@ -388,7 +438,11 @@ func init() {
 				s.Check(okVal, key, c.P.Pos(store.Pos()), "stores &query where query = s.String()", "the value stored into url.query is not the list's own serialization")
 				// conditions
 				var badConds []string
-				for _, b := range upd.Blocks {
+				condBlocks := append([]*ssa.BasicBlock(nil), upd.Blocks...)
+				if body != upd {
+					condBlocks = append(condBlocks, body.Blocks...)
+				}
+				for _, b := range condBlocks {
 					iff, ok := lastIf(b)
 					if !ok {
 						continue
@@ -400,6 +454,9 @@ func init() {
 					}
 					if x, _, ok := nilTest(cond, "Url:query"); ok {
 						if _, ok := loadOfField(x, "SearchParams:url"); ok {
+							okc = true
+						}
+						if body != upd && x == ssa.Value(body.Params[0]) {
 							okc = true
 						}
 					}
@@ -469,6 +526,9 @@ func init() {
 								return walk(b.Succs[take])
 							}
 							return walk(b.Succs[0]) || walk(b.Succs[1])
+						}
+						if body != upd {
+							return walk(body.Blocks[0]) // with a URL attached the helper is called (the only other condition)
 						}
 						return walk(upd.Blocks[0])
 					}
@@ -611,8 +671,16 @@ func init() {
 				}
 				// the list object of this URL: a load of u.searchParams, possibly through a local copy
 				isList := func(m *fnode, v ssa.Value) bool {
-					x, ok := loadOfField(v, "Url:searchParams")
-					return ok && m.Root(x) == u
+					if x, ok := loadOfField(v, "Url:searchParams"); ok && m.Root(x) == u {
+						return true
+					}
+					// inside a helper of the list: its receiver stands for what the caller called it on
+					if r := m.Root(v); r != v {
+						if x, ok := loadOfField(r, "Url:searchParams"); ok && (x == u || m.Root(x) == u) {
+							return true
+						}
+					}
+					return false
 				}
 				isTrunc := func(m *fnode, ins ssa.Instruction) bool {
 					st, ok := ins.(*ssa.Store)
@@ -1240,9 +1308,6 @@ func initStartsEmpty(in *ssa.Function) bool {
 			}
 		}
 	}
-	if len(stores) == 0 {
-		return false
-	}
 	emptyLeaf := func(v ssa.Value) bool {
 		switch x := v.(type) {
 		case *ssa.Const:
@@ -1266,6 +1331,53 @@ func initStartsEmpty(in *ssa.Function) bool {
 		}
 		return -1
 	}
+	// a method of the same type that does nothing to the list but empty it (`s.clear()`), called on the receiver,
+	// empties it where it is called
+	type callAt struct {
+		call *ssa.Call
+		idx  int
+	}
+	var clears []callAt
+	for _, b := range in.Blocks {
+		for i, ins := range b.Instrs {
+			call, ok := ins.(*ssa.Call)
+			if !ok {
+				continue
+			}
+			g := call.Common().StaticCallee()
+			if g == nil || len(g.Blocks) == 0 || len(call.Common().Args) == 0 || call.Common().Args[0] != recv || len(g.Params) == 0 {
+				continue
+			}
+			n, all := 0, true
+			for _, gb := range g.Blocks {
+				for _, gi := range gb.Instrs {
+					if st, ok := gi.(*ssa.Store); ok {
+						if fa, ok := fieldAddrOf(st.Addr, "SearchParams:params"); ok && fa.X == ssa.Value(g.Params[0]) {
+							n++
+							if !emptyLeaf(st.Val) {
+								all = false
+							}
+						}
+					}
+				}
+			}
+			// on every path: the emptying store is in the entry block
+			inEntry := false
+			for _, gi := range g.Blocks[0].Instrs {
+				if st, ok := gi.(*ssa.Store); ok {
+					if fa, ok := fieldAddrOf(st.Addr, "SearchParams:params"); ok && fa.X == ssa.Value(g.Params[0]) && emptyLeaf(st.Val) {
+						inEntry = true
+					}
+				}
+			}
+			if n > 0 && all && inEntry {
+				clears = append(clears, callAt{call, i})
+			}
+		}
+	}
+	if len(stores) == 0 {
+		return false
+	}
 	truncBefore := func(ld *ssa.UnOp) bool {
 		for _, sa := range stores {
 			if !emptyLeaf(sa.st.Val) {
@@ -1276,6 +1388,15 @@ func initStartsEmpty(in *ssa.Function) bool {
 					return true
 				}
 			} else if sa.st.Block().Dominates(ld.Block()) {
+				return true
+			}
+		}
+		for _, ca := range clears {
+			if ca.call.Block() == ld.Block() {
+				if ca.idx < indexOf(ld) {
+					return true
+				}
+			} else if ca.call.Block().Dominates(ld.Block()) {
 				return true
 			}
 		}
